@@ -81,6 +81,13 @@ void upolynomial_compute_sturm_sequence(const lp_upolynomial_t* f, upolynomial_d
     upolynomial_dense_construct(&S[i], f_deg + 1);
     // Compute a*S[i-2] = div*S[i-1] + b*S[i]
     upolynomial_dense_reduce_Z(&S[i-2], &S[i-1], &a, &S[i]);
+    if (upolynomial_dense_is_zero(&S[i])) {
+      // f is not square-free: S[i-1] is gcd(f, f') up to a constant and the
+      // sequence ends there (a zero polynomial has no primitive part)
+      upolynomial_dense_destruct(&S[i]);
+      i --;
+      break;
+    }
     upolynomial_dense_mk_primitive_Z(&S[i], 0);
 
     // If the coefficient of the reduction is not negative, we have to flip the
